@@ -35,6 +35,7 @@ type ReplayFile struct {
 	Variant  string        `json:"variant"`
 	Tier     string        `json:"tier"`
 	RunSeed  uint64        `json:"run_seed"`
+	RunIndex int           `json:"run_index"`
 	Class    string        `json:"class"`
 	Msg      string        `json:"msg"`
 	Hash     uint64        `json:"schedule_hash"`
@@ -84,7 +85,9 @@ func runSeedOf(base uint64, prop string, idx int) uint64 {
 	return h
 }
 
-func pickVariant(ws []*Workload, idx int) *Workload {
+// pickVariant maps a run index to a workload variant (weighted round robin) and to the ordinal of that run
+// among the runs of the same variant (enumerated dimensions are derived from the ordinal).
+func pickVariant(ws []*Workload, idx int) (*Workload, int) {
 	tot := 0
 	for _, w := range ws {
 		tot += w.Weight
@@ -92,11 +95,11 @@ func pickVariant(ws []*Workload, idx int) *Workload {
 	k := idx % tot
 	for _, w := range ws {
 		if k < w.Weight {
-			return w
+			return w, (idx/tot)*w.Weight + k
 		}
 		k -= w.Weight
 	}
-	return ws[0]
+	return ws[0], idx
 }
 
 // Agg is the per-process aggregate of a batch.
@@ -145,7 +148,7 @@ func TestWorker(t *testing.T) {
 			return
 		}
 		fmt.Fprintf(os.Stderr, "VSIM-RUN 0 %d %s\n", job.Base, ws[0].Variant)
-		res := execute(t, ws[0], job.Tier, job.Base, execOpts{})
+		res := execute(t, ws[0], job.Tier, job.Base, job.Start, execOpts{})
 		if !res.OK {
 			emit("FAIL", map[string]any{"idx": 0, "res": res, "tape": tapeToJSON(res.Tape)})
 		}
@@ -200,10 +203,10 @@ func runBatch(t *testing.T, job Job) {
 		if job.Deadline > 0 && time.Now().Unix() >= job.Deadline {
 			break
 		}
-		w := pickVariant(ws, idx)
+		w, ord := pickVariant(ws, idx)
 		seed := runSeedOf(job.Base, job.Prop, idx)
-		fmt.Fprintf(os.Stderr, "VSIM-RUN %d %d %s\n", idx, seed, w.Variant)
-		res := execute(t, w, job.Tier, seed, execOpts{})
+		fmt.Fprintf(os.Stderr, "VSIM-RUN %d %d %s %d\n", idx, seed, w.Variant, ord)
+		res := execute(t, w, job.Tier, seed, ord, execOpts{})
 		agg.Runs++
 		agg.Steps += int64(res.Steps)
 		agg.SimNs += res.SimNs
@@ -234,7 +237,7 @@ func runBatch(t *testing.T, job Job) {
 			agg.Undecided[res.Undecided]++
 		}
 		if !res.OK {
-			emit("FAIL", map[string]any{"idx": idx, "res": res, "tape": tapeToJSON(res.Tape)})
+			emit("FAIL", map[string]any{"idx": idx, "ord": ord, "res": res, "tape": tapeToJSON(res.Tape)})
 		}
 		idx += job.Stride
 	}
@@ -270,7 +273,7 @@ func runReplay(t *testing.T, job Job) {
 	if tape == nil {
 		tape = []vsimrt.Draw{}
 	}
-	res := execute(t, w, rf.Tier, rf.RunSeed, execOpts{replay: tape, strict: true, trace: job.Mode == "trace"})
+	res := execute(t, w, rf.Tier, rf.RunSeed, rf.RunIndex, execOpts{replay: tape, strict: true, trace: job.Mode == "trace"})
 	emit("REPLAY", map[string]any{"res": res, "expected_class": rf.Class, "same": res.Viol != nil && res.Viol.Class == rf.Class})
 	if job.Mode == "trace" {
 		for _, l := range res.Trace {
@@ -304,7 +307,7 @@ func runMinimise(t *testing.T, job Job) {
 			return false
 		}
 		execs++
-		res := execute(t, w, rf.Tier, rf.RunSeed, execOpts{replay: cand, keepTape: true})
+		res := execute(t, w, rf.Tier, rf.RunSeed, rf.RunIndex, execOpts{replay: cand, keepTape: true})
 		if res.Viol != nil && res.Viol.Class == rf.Class {
 			best = res
 			return true
@@ -366,7 +369,7 @@ func runMinimise(t *testing.T, job Job) {
 		}
 	}
 	// final: re-run to obtain the exact tape the minimised run produces (strict replay needs it)
-	final := execute(t, w, rf.Tier, rf.RunSeed, execOpts{replay: cur, keepTape: true})
+	final := execute(t, w, rf.Tier, rf.RunSeed, rf.RunIndex, execOpts{replay: cur, keepTape: true})
 	if final.Viol == nil || final.Viol.Class != rf.Class {
 		emit("MIN", map[string]any{"ok": false, "why": "minimised tape stopped reproducing", "execs": execs})
 		return
@@ -382,7 +385,7 @@ func runMinimise(t *testing.T, job Job) {
 			nz++
 		}
 	}
-	o := ReplayFile{Property: rf.Property, Variant: rf.Variant, Tier: rf.Tier, RunSeed: rf.RunSeed, Class: rf.Class, Msg: final.Viol.Msg,
+	o := ReplayFile{Property: rf.Property, Variant: rf.Variant, Tier: rf.Tier, RunSeed: rf.RunSeed, RunIndex: rf.RunIndex, Class: rf.Class, Msg: final.Viol.Msg,
 		Hash: final.Hash, Steps: final.Steps, Minimised: true, OrigTapeLen: len(rf.Tape), NonZero: nz, Tape: tapeToJSON(tape), Notes: final.Notes}
 	b, _ := json.Marshal(o)
 	if err := os.WriteFile(job.Out, b, 0o644); err != nil {
